@@ -1570,7 +1570,7 @@ fn malformed(sink: &mut Sink, rng: &mut Rng, n: usize) {
         let (csv, what): (String, &str) = match k % 6 {
             0 => (format!("{},0,0,1,x,名詞,普通名詞,一般,*,*,*,x,x,*,A,*,*,*,*\n", "a".repeat(32768)), "string of 32768 bytes"),
             1 => (format!("{}東,0,0,1,東,名詞,普通名詞,一般,*,*,*,x,x,*,C,{},*,*,*\n", base, vec!["0"; 128].join("/")), "128 split items"),
-            2 => (format!("{}東,0,0,1,東,名詞,普通名詞,一般,*,*,*,x,x,*,C,*,*,{},*\n", base, 1 + rng.below(100)), "word structure id out of range"),
+            2 => (format!("{}東,0,0,1,東,名詞,普通名詞,一般,*,*,*,x,x,*,C,*,*,{},*\n", base, 2 + rng.below(100)), "word structure id out of range"),
             3 => (format!("{}東,0,0,1,\\u{{110000}},名詞,普通名詞,一般,*,*,*,x,x,*,A,*,*,*,*\n", base), "escape above U+10FFFF"),
             4 => (format!("{}東,0,0,1,東,名詞,普通名詞,一般,*,*,*,x,x,*,C,\"無,名詞,普通名詞,一般,*,*,*,ム\",*,*,*\n", base), "unresolvable inline reference"),
             _ => (format!("{}東,{},0,1,東,名詞,普通名詞,一般,*,*,*,x,x,*,A,*,*,*,*\n", base, 1 + rng.below(3)), "left id outside the matrix"),
@@ -1645,7 +1645,7 @@ pub fn run(args: &Args) {
     let mut rng = Rng::new(args.seed);
     // corpus: the shipped test lexicon, compiled and read back by the implementation-side oracle only
     // (its rows are not in model vocabulary); then the generated streams
-    let n = args.n(700, 9000);
+    let n = args.n(540, 9000);
     let mut procs = 0usize;
     for k in 0..n {
         let user = k % 3 == 2;
